@@ -371,9 +371,13 @@ def check_probe(case, col=None):
                 if junk not in want_env:
                     got_env.pop(junk, None)
             if got_env != want_env:
-                raise Violation('probe-env', 'child environment differs: only in child %r, only in request %r'
-                                % (sorted(set(got_env.items()) - set(want_env.items()))[:4],
-                                   sorted(set(want_env.items()) - set(got_env.items()))[:4]))
+                # names only: the values of inherited variables do not belong in reports
+                only_child = set(got_env.items()) - set(want_env.items())
+                only_req = set(want_env.items()) - set(got_env.items())
+                raise Violation('probe-env', 'child environment differs: %d variable(s) only in (or different in) the child %r, '
+                                '%d only in (or different in) the request %r'
+                                % (len(only_child), sorted(k for k, v in only_child)[:4],
+                                   len(only_req), sorted(k for k, v in only_req)[:4]))
             if case['form'] != 'popen':
                 want_dims = case['dims'] or [24, 80]
                 if rep['winsize'] != list(want_dims):
